@@ -870,6 +870,44 @@ pub fn oracle_c05(w: &World, so: &StepObs, out: &mut StepOut, pre_book: &RefBook
     }
 }
 
+/// C07's stated preconditions other than the insurance fund's balance, for a Liquidate step: reference ratio below
+/// maintenance, vAMM open and registered, closing trade fillable, spot inside the per-block band, liquidation fee
+/// non-zero, and the caller's quote limit satisfied by the trade the liquidation makes (whole position or slice).
+pub fn c07_preconditions_but_fund(w: &World, so: &StepObs) -> bool {
+    let cfg = &w.live_cfg(so.act.vamm_index());
+    if let Act::Liq { t, v, limit, .. } = &so.act {
+        let p0 = so.pre_t(*v, t);
+        let vo = &so.pre.vamms[*v];
+        let pp = match &p0.pos {
+            Some(p) if !p.size.is_zero() => p,
+            _ => return false,
+        };
+        let r = match ref_ratio(p0, vo, true) {
+            Some(r) => r,
+            None => return false,
+        };
+        let registered_open = vo.registered && vo.state.open;
+        let fill_ok = p0.out_spot >= 0;
+        let band_ok = match vo.band {
+            None => true,
+            Some((lo, hi)) => vo.spot >= lo && vo.spot <= hi,
+        };
+        let fee_ok = cfg.liq_fee != 0;
+        let limit_ok = *limit == 0 || {
+            let partial = cfg.plr != 0 && r.abs() > cfg.liq_fee as i128;
+            let fill = if partial {
+                w.out_amount(*v, pp.direction.clone(), pp.size.value.u128() * cfg.plr / du()).unwrap_or(0)
+            } else {
+                p0.out_spot.max(0) as u128
+            };
+            if size_of(pp) > 0 { fill >= *limit } else { fill <= *limit }
+        };
+        r < cfg.mmr as i128 && registered_open && fill_ok && band_ok && fee_ok && limit_ok
+    } else {
+        false
+    }
+}
+
 // --------------------------------------------------------------------------------------- C06 / C07
 pub fn oracle_c06_c07(w: &World, so: &StepObs, out: &mut StepOut, do6: bool, do7: bool) {
     let cfg = &w.live_cfg(so.act.vamm_index());
@@ -976,26 +1014,10 @@ pub fn oracle_c06_c07(w: &World, so: &StepObs, out: &mut StepOut, do6: bool, do7
             }
         } else if do7 {
             // C07: all stated preconditions
-            let registered_open = vo.registered && vo.state.open;
-            let fill_ok = p0.out_spot >= 0;
-            let band_ok = match vo.band {
-                None => true,
-                Some((lo, hi)) => vo.spot >= lo && vo.spot <= hi,
-            };
-            let fee_ok = cfg.liq_fee != 0;
             let fund_ok = so.pre.balances[&ifu] as i128
                 >= pp.notional.u128() as i128 + pp.margin.u128() as i128 + p0.out_spot.max(0);
-            // the caller's quote limit is satisfied by the trade the liquidation makes (whole position or slice)
-            let limit_ok = *limit == 0 || {
-                let partial = cfg.plr != 0 && r.abs() > cfg.liq_fee as i128;
-                let fill = if partial {
-                    w.out_amount(*v, pp.direction.clone(), pp.size.value.u128() * cfg.plr / du()).unwrap_or(0)
-                } else {
-                    p0.out_spot.max(0) as u128
-                };
-                if size_of(pp) > 0 { fill >= *limit } else { fill <= *limit }
-            };
-            if r < cfg.mmr as i128 && registered_open && fill_ok && band_ok && fee_ok && fund_ok && limit_ok {
+            let others_ok = c07_preconditions_but_fund(w, so);
+            if others_ok && fund_ok {
                 let cls = err_class(&so.outcome.err);
                 let vault = so.pre.balances[&eng] as i128;
                 let rem = pp.margin.u128() as i128 + pnl_of(pp, p0.out_spot) - owed;
